@@ -17,6 +17,7 @@ Respellings the normal form is invariant under (each is behaviour-preserving on 
   N7  `t = e; S[t]` <-> `S[e]` when t is bound once, read once, in the next statement, at the position that is evaluated first there
   N8  `if c: ...; return x  else: B` <-> `if c: ...; return x` followed by B (also raise / continue / break, and the mirrored orientation)
   N9  `X.T.conj()` <-> `X.conj().T`
+  N10 positional <-> keyword passing of an argument, for calls whose callee name has one parameter list in the whole package (and a few numpy functions)
 Not covered (such a change is analysed as written): anything that reorders effects, changes an expression algebraically, restructures loops, or
 moves code between functions."""
 import ast
@@ -99,7 +100,40 @@ def _first_evaluated(e):
             return e
 
 
+_NP_SIGS = {"tensordot": ["a", "b", "axes"], "moveaxis": ["a", "source", "destination"], "transpose": ["a", "axes"], "zeros": ["shape", "dtype"], "ones": ["shape", "dtype"],
+            "array": ["object", "dtype"], "asarray": ["a", "dtype"], "allclose": ["a", "b", "rtol", "atol"], "isclose": ["a", "b", "rtol", "atol"], "concatenate": ["arrays", "axis"],
+            "linspace": ["start", "stop", "num"], "arange": None, "reshape": ["a", "newshape"], "sum": ["a", "axis"], "argsort": ["a", "axis"]}
+_STOP = {"copy", "dot", "conj", "reshape", "append", "get", "pop", "update", "format", "join", "split", "sum", "max", "min", "sort", "index", "insert", "extend", "astype", "transpose", "ravel",
+         "flatten", "any", "all", "items", "keys", "values", "read", "write", "close", "load", "dump", "save", "array", "zeros", "ones", "scale", "norm", "real", "imag", "T"}
+
+
+def collect_signatures(modules):
+    """{function name: parameter list} for names defined exactly once in the package (or several times with the same parameter list); methods without their receiver"""
+    seen = {}
+    for mod in modules.values():
+        for n in ast.walk(mod):
+            if isinstance(n, ast.ClassDef):
+                for m in n.body:
+                    if isinstance(m, (ast.FunctionDef, ast.AsyncFunctionDef)):
+                        m._nf_method = True
+        for n in ast.walk(mod):
+            if isinstance(n, (ast.FunctionDef, ast.AsyncFunctionDef)):
+                a = n.args
+                if a.vararg or a.kwarg or a.posonlyargs:
+                    ps = None
+                else:
+                    ps = [x.arg for x in a.args]
+                    static = any(isinstance(d, ast.Name) and d.id == "staticmethod" for d in n.decorator_list)
+                    if getattr(n, "_nf_method", False) and not static and ps:
+                        ps = ps[1:]
+                    ps = tuple(ps + [x.arg for x in a.kwonlyargs]) if not a.kwonlyargs else None
+                seen.setdefault(n.name, set()).add(ps)
+    return {k: list(next(iter(v))) for k, v in seen.items() if len(v) == 1 and next(iter(v)) is not None and k not in _STOP and not k.startswith("__")}
+
+
 class _Canon(ast.NodeTransformer):
+    sigs = {}
+
     def __init__(self, fn):
         # load / store counts of plain names in the whole top-level function (nested scopes included: a name read there is never inlined)
         self.loads, self.stores = {}, {}
@@ -194,6 +228,21 @@ class _Canon(ast.NodeTransformer):
         if isinstance(n.func, ast.Attribute) and n.func.attr == "conj" and not n.args and not n.keywords and isinstance(n.func.value, ast.Attribute) and n.func.value.attr == "T":
             inner = n.func.value.value
             return ast.Attribute(value=ast.Call(func=ast.Attribute(value=inner, attr="conj", ctx=ast.Load()), args=[], keywords=[]), attr="T", ctx=ast.Load())
+        # N10: positional arguments of a call to a function with a known parameter list are written as keywords
+        ps = None
+        if isinstance(n.func, ast.Name):
+            ps = self.sigs.get(n.func.id)
+        elif isinstance(n.func, ast.Attribute):
+            base = n.func.value
+            if isinstance(base, ast.Name) and base.id in ("np", "xp", "numpy", "scipy"):
+                ps = _NP_SIGS.get(n.func.attr)
+            elif not (isinstance(base, ast.Name) and base.id in ("os", "math", "logging", "logger", "sp", "itertools", "functools")):
+                ps = self.sigs.get(n.func.attr)
+        if ps is not None and n.args and not any(isinstance(a, ast.Starred) for a in n.args) and all(k.arg is not None for k in n.keywords) and len(n.args) <= len(ps) \
+                and not ({k.arg for k in n.keywords} & set(ps[:len(n.args)])) and all(k.arg in ps for k in n.keywords):
+            keep = 1 if ps and len(n.args) >= 1 else 0          # the first argument stays positional (readability of the normal form only)
+            n.keywords = n.keywords + [ast.keyword(arg=ps[i], value=a) for i, a in enumerate(n.args) if i >= keep]
+            n.args = n.args[:keep]
         if len(n.keywords) > 1 and all(k.arg is not None for k in n.keywords):
             n.keywords = sorted(n.keywords, key=lambda k: k.arg)
         return n
@@ -270,22 +319,24 @@ class _Subst(ast.NodeTransformer):
     visit_FunctionDef = visit_ListComp = visit_SetComp = visit_DictComp = visit_GeneratorExp = visit_Lambda
 
 
-def normal_form(fn):
-    """text of the normal form of a top-level function node (the node is not modified)"""
+def normal_form(fn, sigs=None):
+    """text of the normal form of a top-level function node (the node is not modified); sigs = collect_signatures(...) of the tree the function belongs to"""
     node = copy.deepcopy(fn)
     node.decorator_list = list(node.decorator_list)
-    node = _Canon(node).visit(node)
+    c = _Canon(node)
+    c.sigs = sigs or {}
+    node = c.visit(node)
     ast.fix_missing_locations(node)
     t = alpha._Alpha(lambda depth, i, name: f"_{i}")
     node = t.visit(node)
     return ast.unparse(node)
 
 
-def nf_hash(fn):
-    return hashlib.sha1(normal_form(fn).encode()).hexdigest()
+def nf_hash(fn, sigs=None):
+    return hashlib.sha1(normal_form(fn, sigs).encode()).hexdigest()
 
 
-def substitute_reference(rel, mod, db, log):
+def substitute_reference(rel, mod, db, log, sigs=None):
     """replace every top-level function / method of one module whose normal form equals the reference's by the reference function"""
     def handle(container, idx, fn, qual):
         ref = db.get(f"{rel}::{qual}")
@@ -295,7 +346,7 @@ def substitute_reference(rel, mod, db, log):
         if cur_txt == ref["src"]:
             return
         try:
-            h = nf_hash(fn)
+            h = nf_hash(fn, sigs)
         except RecursionError:
             return
         if h != ref["nf"]:
